@@ -1,7 +1,7 @@
 """C03 — content stays on its page and every page makes progress."""
 from fractions import Fraction
 
-from harness import docs, pm, pm_corr, wide_trace
+from harness import docs, pm, pm_corr, pm_foot_corr, pm_oof_corr, pm_stage2, wide_trace
 from vlib import sx
 from vlib.framework import PropCheck
 
@@ -90,7 +90,8 @@ class C03(PropCheck):
     id = 'C03'
     extractors = ()
     modules = ('WpModel.Props.C03', 'WpModel.Props.C03Geo', 'WpModel.Props.C03Trace', 'WpModel.Witness.C03',
-               'WpModel.Props.C03Pm2', 'WpModel.Witness.C03Pm2')
+               'WpModel.Props.C03Pm2', 'WpModel.Witness.C03Pm2', 'WpModel.Props.C03Oof', 'WpModel.Props.C03Foot',
+               'WpModel.Props.C03FootGeo')
     trusted_base = (
         'modelled, not verified: the block/line pagination functions of block.py and page.py as '
         'lean/WpModel/Model/Paginate.lean (see C01)',
@@ -104,6 +105,18 @@ class C03(PropCheck):
             'random block/paragraph documents, whole pagination compared exactly including position_y/height of '
             'every line and box; non-trivial = at least 2 pages')
         pm_corr.add_cases(run, sec, run.n(250, 6000))
+        sec_oof = run.section(
+            'pm-oof-documents',
+            'stage 2a of the pagination model (Model/PaginateOof): absolutely positioned boxes, full-width floats, clear; '
+            'whole pagination with the geometry of every line, box and out-of-flow fragment compared exactly; '
+            'non-trivial = at least 2 pages')
+        pm_oof_corr.add_cases(run, sec_oof, run.n(120, 4000))
+        sec_foot = run.section(
+            'pm-foot-documents',
+            'stage 2b of the pagination model (Model/PaginateFoot): footnotes; whole pagination with the geometry of '
+            'every line and of the footnote area (page_bottom moves with it) compared exactly; non-trivial = at least '
+            '2 pages and one footnote')
+        pm_foot_corr.add_cases(run, sec_foot, run.n(100, 3000))
         sec2 = run.section(
             'wide-geometry',
             'documents of the wide grammar: per page, the bottom edges of in-flow line boxes and table rows with a '
@@ -129,6 +142,8 @@ class C03(PropCheck):
                          tags=[meta['doc_id'].split('-')[0]])
 
     def classify(self, d):
+        if d['section'] == 'pm-foot-documents':
+            return pm_foot_corr.classify(pm_foot_corr.doc_from_json(d['meta']['doc']), d['impl'])
         if d['section'] == 'wide-geometry':
             return wide_trace.explain_fits(d['meta'])
         if d['section'] == 'families' and d['meta']['doc_id'] in self._family_known.get('fits', ()):
@@ -139,7 +154,8 @@ class C03(PropCheck):
         return {'table-in-columns-rows-overflow': table_in_columns_overflow,
                 'clone-negative-margin-bottom': clone_negative_margin,
                 'table-rows-after-overflowing-first-item': lambda: corpus_overflow('table_rows_after_overflow'),
-                'stale-next-page-blank-pages': lambda: stale_next_page()[0]}
+                'stale-next-page-blank-pages': lambda: stale_next_page()[0],
+                'footnote-named-page-area-overlap': pm_foot_corr.FINDING_REPLAYS['footnote-named-page-area-overlap']}
 
     def judge(self, d):
         if d['section'] == 'families':
@@ -148,6 +164,9 @@ class C03(PropCheck):
         if d['section'] == 'wide-geometry':
             return (f'page {d["meta"]["page_index"]}: in-flow items {d["model"]} end below the content box bottom '
                     f'{d["meta"]["bottom"]} without being first on their page')
+        if d['section'] in pm_stage2.SECTIONS:
+            doc = pm_stage2.corr(d['section']).doc_from_json(d['meta']['doc'])
+            return pm_stage2.progress(d['section'], doc, d['impl'])
         doc = pm_corr.doc_from_json(d['meta']['doc'])
         return geometry_violation(doc, d['impl']) or pm_corr.progress_violation(doc, d['impl'])
 
@@ -171,6 +190,9 @@ class C03(PropCheck):
     def replay(self, data):
         inp = data.get('input', {})
         meta = inp.get('meta') or inp
+        if 'doc' in meta and inp.get('section') in pm_stage2.SECTIONS:
+            module, doc, out = pm_stage2.doc_and_real(inp)
+            return None if out.startswith('err:') else pm_stage2.progress(inp['section'], doc, out)
         if 'doc' in meta:
             doc = pm_corr.doc_from_json(meta['doc'])
             out = pm_corr.real_line(doc)
